@@ -18,10 +18,18 @@ Tie: the Lean definitions translated from the SOURCE TEXT of the short sensor se
                                                                      = Sens.decMixer / mixerEntries / decMixers
 
 (Generated/PyCode.lean, rewritten by tools/py2lean.py on every run) equal the hand-written decoders of
-Model/DecodeSensors.lean for EVERY message, every natural offset and every `data` argument that is `None` or a dict:
-the fields merged into `data` (`fieldsV`: the model's section fields as Python values), the exception class, and the
-RETURNED OFFSET — stated as a number (`off + 1`, `off + 1 + count`, `off + 4`, `off + 1 + 8·mixers`) next to the
-`*_rest` lemma that says the model's remainder is the message from exactly that offset on.
+Model/DecodeSensors.lean.  Every `*_decode_eq` / `*_decode_model` has the MODEL FUNCTION on its right-hand side
+(`match Sens.decX (msg.drop off) with | some (fs, _) => .ok (.tuple [mergeF data fs, .int off']) | none => .error e`):
+the fields the model decodes, rendered as Python values by `fieldV : Val → V` (scalars, records, int-keyed dicts) and merged
+into `data`; the exception class; and the RETURNED OFFSET as a number (`off + 1`, `off + 1 + count`, `off + 4`,
+`off + 1 + 8·mixers`, `off + thermoLen …`) next to a `*_rest` lemma saying the model's remainder is the message from exactly
+that offset on.  `thermostat_sensors_decode_model` does the same for the thermostat section of TieStructSensors.
+
+Hypotheses, exactly: every message, every NATURAL offset (negative offsets run in the translated code and are not covered),
+every `data` that is `None` or a string-keyed dict (`dataOk`); the mixer helpers are stated for an instance whose `_offset` is
+a natural (what `decode` establishes); for the stateful mixer / thermostat decoders the `*_model` theorems speak about the
+RESULT (`.map (·.1)`), the instance after a successful call is in `mixer_sensors_decode_eq` / `thermostat_sensors_decode_eq`,
+the instance after an exception is in no statement.
 
 The returned offset of the pending-alerts section (`offset + alerts_number + 1`: the alert bytes are skipped without a
 bounds check) is the statement a blind seed broke.
@@ -41,8 +49,28 @@ def scalarV : Val → V
   | .f64 f => .float 8 f.toNat
   | _ => .none
 
+/-- a record (dict with string keys) of scalars -/
+def recordV : Val → V
+  | .record fs => .dict (fs.map (·.1)) (fs.map fun f => scalarV f.2)
+  | v => scalarV v
+
+def pairKeyV : Val → V
+  | .list [k, _] => scalarV k
+  | _ => .none
+
+def pairValV : Val → V
+  | .list [_, v] => recordV v
+  | _ => .none
+
+/-- the value of one field of a sensor section as a Python value: a scalar, a record, or (`Val.intDict`: a `Val.list` of
+`[key, value]` pairs) a dict with int keys — the prelude's `.map`, the empty one being `.dict [] []` -/
+def fieldV : Val → V
+  | .list [] => .dict [] []
+  | .list (p :: ps) => .map ((p :: ps).map pairKeyV) ((p :: ps).map pairValV)
+  | v => recordV v
+
 /-- `ensure_dict(data, {fields})` for the fields of one section -/
-def mergeF (data : V) (fs : VFields) : V := merge1 data (fs.map (·.1)) (fs.map fun f => scalarV f.2)
+def mergeF (data : V) (fs : VFields) : V := merge1 data (fs.map (·.1)) (fs.map fun f => fieldV f.2)
 
 theorem hb : Gen.byteUndefined = 255 := rfl
 theorem hu (c0 : UInt8) : (c0.toNat = 255) ↔ c0 = 255 := by simp [← UInt8.toNat_inj]
@@ -83,8 +111,8 @@ theorem fuel_level_decode_eq (msg : List UInt8) (off : Nat) (data : V) (hd : dat
       simp only [hc', Bool.false_eq_true, if_false, byteV_nat, c101, ge_nat, truthy_bool]
       by_cases hg : b.toNat ≥ 101
       · have hs : Py.sub (.int (b.toNat : Int)) (.int 101) = .ok (.int ((b.toNat - 101 : Nat) : Int)) := sub_nat _ 101 hg
-        simp [hg, bind_ok, hs, truthy_true, ensure_dict_eq _ hd, decFuelLevel, readByte, hb, g101, hn, mergeF, scalarV, Val.nat]
-      · simp [hg, bind_ok, truthy_false, ensure_dict_eq _ hd, decFuelLevel, readByte, hb, g101, hn, mergeF, scalarV, Val.nat]
+        simp [hg, bind_ok, hs, truthy_true, ensure_dict_eq _ hd, decFuelLevel, readByte, hb, g101, hn, mergeF, fieldV, recordV, scalarV, Val.nat]
+      · simp [hg, bind_ok, truthy_false, ensure_dict_eq _ hd, decFuelLevel, readByte, hb, g101, hn, mergeF, fieldV, recordV, scalarV, Val.nat]
 
 theorem fuel_level_rest (s : List UInt8) (fs : VFields) (r : List UInt8) (h : decFuelLevel s = some (fs, r)) : r = s.drop 1 := by
   match s with
@@ -117,7 +145,7 @@ theorem boiler_load_decode_eq (msg : List UInt8) (off : Nat) (data : V) (hd : da
       rfl
     · have hc' : (b == 255) = false := by simpa using hc
       have hn : ¬ b.toNat = 255 := by rwa [hu]
-      simp [hc', bind_ok, ensure_dict_eq _ hd, decBoilerLoad, readByte, hb, hn, mergeF, scalarV, Val.nat, byteV_nat]
+      simp [hc', bind_ok, ensure_dict_eq _ hd, decBoilerLoad, readByte, hb, hn, mergeF, fieldV, recordV, scalarV, Val.nat, byteV_nat]
 
 theorem boiler_load_rest (s : List UInt8) (fs : VFields) (r : List UInt8) (h : decBoilerLoad s = some (fs, r)) : r = s.drop 1 := by
   match s with
@@ -141,7 +169,7 @@ theorem pending_alerts_decode_eq (msg : List UInt8) (off : Nat) (data : V) (hd :
   | [] => simp [bind_err, decPendingAlerts, readByte]
   | b :: r =>
     simp only [List.getElem?_cons_zero, bind_ok, byteV_nat, add_int', ← Int.natCast_add, cast_add_one, ensure_dict_eq _ hd]
-    simp [decPendingAlerts, readByte, mergeF, scalarV, Val.nat]
+    simp [decPendingAlerts, readByte, mergeF, fieldV, recordV, scalarV, Val.nat]
 
 /-- the model's remainder is the message from the returned offset on -/
 theorem pending_alerts_rest (s : List UInt8) (n : UInt8) (r0 : List UInt8) (fs : VFields) (r : List UInt8)
@@ -179,7 +207,7 @@ theorem fan_power_decode_eq (msg : List UInt8) (off : Nat) (data : V) (hd : data
   | some p =>
     obtain ⟨f, r⟩ := p
     simp only [bind_ok, getattr_wire_size, getattr_wire_value, add_int', ← Int.natCast_add, math_isnan_f32, truthy_bool]
-    cases hn : isNaN32 f <;> simp [bind_ok, ensure_dict_none _ hd, ensure_dict_eq _ hd, mergeF, scalarV] <;> rfl
+    cases hn : isNaN32 f <;> simp [bind_ok, ensure_dict_none _ hd, ensure_dict_eq _ hd, mergeF, fieldV, recordV, scalarV] <;> rfl
 
 /-- **`BoilerPowerStructure.decode`** -/
 theorem boiler_power_decode_eq (msg : List UInt8) (off : Nat) (data : V) (hd : dataOk data) :
@@ -194,7 +222,7 @@ theorem boiler_power_decode_eq (msg : List UInt8) (off : Nat) (data : V) (hd : d
   | some p =>
     obtain ⟨f, r⟩ := p
     simp only [bind_ok, getattr_wire_size, getattr_wire_value, add_int', ← Int.natCast_add, math_isnan_f32, truthy_bool]
-    cases hn : isNaN32 f <;> simp [bind_ok, ensure_dict_none _ hd, ensure_dict_eq _ hd, mergeF, scalarV] <;> rfl
+    cases hn : isNaN32 f <;> simp [bind_ok, ensure_dict_none _ hd, ensure_dict_eq _ hd, mergeF, fieldV, recordV, scalarV] <;> rfl
 
 /-- **`FuelConsumptionStructure.decode`** -/
 theorem fuel_consumption_decode_eq (msg : List UInt8) (off : Nat) (data : V) (hd : dataOk data) :
@@ -209,7 +237,7 @@ theorem fuel_consumption_decode_eq (msg : List UInt8) (off : Nat) (data : V) (hd
   | some p =>
     obtain ⟨f, r⟩ := p
     simp only [bind_ok, getattr_wire_size, getattr_wire_value, add_int', ← Int.natCast_add, math_isnan_f32, truthy_bool]
-    cases hn : isNaN32 f <;> simp [bind_ok, ensure_dict_none _ hd, ensure_dict_eq _ hd, mergeF, scalarV] <;> rfl
+    cases hn : isNaN32 f <;> simp [bind_ok, ensure_dict_none _ hd, ensure_dict_eq _ hd, mergeF, fieldV, recordV, scalarV] <;> rfl
 
 theorem optF32_rest (name : String) (s : List UInt8) (fs : VFields) (r : List UInt8) (h : decOptF32 name s = some (fs, r)) :
     r = s.drop 4 := by
@@ -249,7 +277,7 @@ theorem output_flags_decode_eq (msg : List UInt8) (off : Nat) (data : V) (hd : d
     have a2048 : Py.and (.int (n : Int)) (.int 2048) = .ok (.int ((n &&& 2048 : Nat) : Int)) := and_nat n 2048
     simp only [bind_ok, getattr_wire_size, getattr_wire_value, a4, a8, a16, a2048, bool_nat, add_int', ← Int.natCast_add,
       ensure_dict_eq _ hd]
-    simp [mergeF, scalarV]
+    simp [mergeF, fieldV, recordV, scalarV]
 
 theorem output_flags_rest (s : List UInt8) (fs : VFields) (r : List UInt8) (h : decOutputFlags s = some (fs, r)) : r = s.drop 4 := by
   unfold decOutputFlags readLE takeN at h
@@ -492,6 +520,194 @@ theorem decN_mixer_rest (n : Nat) (s : List UInt8) (ms : List (Option Val)) (r :
         have := ih _ _ _ hN
         rw [← h.2, this, hr, List.drop_drop]
         congr 1; omega
+
+/-! ### thermostat and mixer sensors against `Sens.decThermostats` / `Sens.decMixers` in ONE statement -/
+
+theorem recV_recordV (contacts : Nat) (ts : List ThRaw) (i cm sm : Nat) :
+    ∀ p ∈ thermoEntries contacts ts i cm sm, recV p.2 = recordV p.2 := by
+  induction ts generalizing i cm sm with
+  | nil => intro p hp; simp [thermoEntries] at hp
+  | cons t ts ih =>
+    intro p hp
+    unfold thermoEntries at hp
+    split at hp
+    · rcases List.mem_cons.mp hp with h | h
+      · subst h; simp [recV, recordV, scalarV, Val.nat]
+      · exact ih _ _ _ p h
+    · exact ih _ _ _ p hp
+
+theorem intDictV_fieldV (d : List (Nat × Val)) (f : Val → V) (hf : ∀ p ∈ d, f p.2 = recordV p.2) :
+    intDictV (d.map fun p => (p.1, f p.2)) = fieldV (Val.intDict d) := by
+  cases d with
+  | nil => rfl
+  | cons p ps =>
+    have h1 : ∀ q ∈ p :: ps, f q.2 = pairValV (Val.list [Val.nat q.1, q.2]) := by
+      intro q hq; rw [hf q hq]; rfl
+    show V.map (((p :: ps).map fun q => (q.1, f q.2)).map fun q => V.int (q.1 : Int)) (((p :: ps).map fun q => (q.1, f q.2)).map (·.2))
+      = V.map (((p :: ps).map fun kv => Val.list [Val.nat kv.1, kv.2]).map pairKeyV)
+          (((p :: ps).map fun kv => Val.list [Val.nat kv.1, kv.2]).map pairValV)
+    rw [List.map_map, List.map_map, List.map_map, List.map_map]
+    congr 1
+    exact List.map_congr_left (fun q hq => h1 q hq)
+
+/-- how many bytes the thermostat section takes -/
+def thermoLen : List UInt8 → Nat
+  | c0 :: nb :: _ => if c0 = 255 then 1 else 2 + 9 * nb.toNat
+  | _ => 1
+
+/-- the exception of a thermostat section cut short -/
+def thermoErr (len off : Nat) : List UInt8 → PyErr
+  | _ :: _ :: _ => shortErr len (off + 2)
+  | _ => .IndexError
+
+/-- **`ThermostatSensorsStructure.decode` = `Sens.decThermostats`**, the model function the C05 theorems are about: the fields
+the model decodes from `message[offset:]`, rendered by `fieldV`, merged into `data`; the returned offset; the exception class
+when the model fails.  (The instance afterwards: `thermostat_sensors_decode_eq`.) -/
+theorem thermostat_sensors_decode_model (c : String) (ks : List String) (vs : List V) (msg : List UInt8) (off : Nat) (data : V)
+    (hd : dataOk data) :
+    (PyCode.ThermostatSensorsStructure_decode (.obj c ks vs) (.bytes msg) (.int (off : Int)) data).map (·.1)
+      = match decThermostats (msg.drop off) with
+        | none => .error (thermoErr msg.length off (msg.drop off))
+        | some (fs, _) => .ok (.tuple [mergeF data fs, .int ((off + thermoLen (msg.drop off) : Nat) : Int)]) := by
+  rw [thermostat_sensors_decode_eq c ks vs msg off data hd, decThermostats_shape]
+  generalize msg.drop off = d
+  match d with
+  | [] => rfl
+  | c0 :: r =>
+    by_cases hc : c0 = 255
+    · subst hc
+      cases r <;> simp [Except.map, mergeF, thermoLen]
+    · match r with
+      | [] => simp [hc, Except.map, thermoErr]
+      | nb :: r2 =>
+        cases hN : decN decThermostat nb.toNat r2 with
+        | none => simp [hc, hN, Except.map, thermoErr]
+        | some p =>
+          obtain ⟨ts, r3⟩ := p
+          have e1 := intDictV_fieldV (thermoEntries c0.toNat ts 0 1 8) recV (recV_recordV _ _ _ _ _)
+          simp only [hc, if_false, hN, Except.map, mergeF, thermoLen, List.map_cons, List.map_nil, entriesP_model, e1, List.length_map]
+          simp [fieldV, recordV, scalarV, Val.nat, Nat.add_assoc]
+
+theorem decN_thermostat_rest (n : Nat) (s : List UInt8) (ts : List ThRaw) (r : List UInt8)
+    (h : decN decThermostat n s = some (ts, r)) : r = s.drop (9 * n) := by
+  induction n generalizing s ts r with
+  | zero => simp [decN] at h; simp [h.2]
+  | succ n ih =>
+    unfold decN at h
+    cases hd : decThermostat s with
+    | none => simp [hd] at h
+    | some p =>
+      obtain ⟨t, r1⟩ := p
+      obtain ⟨hr, _⟩ := decThermostat_some _ _ _ hd
+      cases hN : decN decThermostat n r1 with
+      | none => simp [hd, hN] at h
+      | some q =>
+        obtain ⟨ts', r2⟩ := q
+        simp [hd, hN] at h
+        have := ih _ _ _ hN
+        rw [← h.2, this, hr, List.drop_drop]
+        congr 1; omega
+
+/-- the model's remainder is the message from the returned offset on -/
+theorem thermostats_rest (s : List UInt8) (fs : VFields) (r : List UInt8) (h : decThermostats s = some (fs, r)) :
+    r = s.drop (thermoLen s) := by
+  rw [decThermostats_shape] at h
+  match s with
+  | [] => simp at h
+  | c0 :: r0 =>
+    by_cases hc : c0 = 255
+    · subst hc
+      simp at h
+      cases r0 <;> simp [thermoLen, h.2]
+    · match r0 with
+      | [] => simp [hc] at h
+      | nb :: r2 =>
+        cases hN : decN decThermostat nb.toNat r2 with
+        | none => simp [hc, hN] at h
+        | some p =>
+          obtain ⟨ts, r3⟩ := p
+          simp [hc, hN] at h
+          have := decN_thermostat_rest _ _ _ _ hN
+          have e : 2 + 9 * nb.toNat = (9 * nb.toNat) + 1 + 1 := by omega
+          simp only [thermoLen, hc, if_false, ← h.2, this, e, List.drop_succ_cons]
+
+theorem mixV_recordV (ms : List (Option Val)) (s : List UInt8) (n : Nat) (r : List UInt8) (h : decN decMixer n s = some (ms, r)) :
+    ∀ p ∈ mixerEntries ms, mixV (some p.2) = recordV p.2 := by
+  have key : ∀ (n : Nat) (s : List UInt8) (ms : List (Option Val)) (r : List UInt8), decN decMixer n s = some (ms, r) →
+      ∀ v, some v ∈ ms → mixV (some v) = recordV v := by
+    intro n
+    induction n with
+    | zero => intro s ms r h v hv; simp [decN] at h; rw [h.1] at hv; simp at hv
+    | succ n ih =>
+      intro s ms r h v hv
+      unfold decN at h
+      cases hd : decMixer s with
+      | none => simp [hd] at h
+      | some q =>
+        obtain ⟨ov, r1⟩ := q
+        cases hN : decN decMixer n r1 with
+        | none => simp [hd, hN] at h
+        | some q2 =>
+          obtain ⟨ms', r2⟩ := q2
+          simp [hd, hN] at h
+          rw [← h.1] at hv
+          rcases List.mem_cons.mp hv with hv | hv
+          · -- the head: what decMixer produces
+            simp only [decMixer, Option.bind_eq_bind, readF32_eq] at hd
+            by_cases h4 : s.length < 4
+            · simp [h4] at hd
+            · simp only [h4, if_false, Option.bind_some] at hd
+              split at hd
+              · simp at hd; rw [← hd.1] at hv; simp at hv
+              · cases h4e : s[4]? with
+                | none => simp [h4e] at hd
+                | some tg =>
+                  cases h6e : s[6]? with
+                  | none => simp [h4e, h6e] at hd
+                  | some fl =>
+                    simp [h4e, h6e] at hd
+                    rw [← hd.1] at hv
+                    simp at hv
+                    subst hv
+                    simp [mixV, recordV, scalarV, Val.nat]
+          · exact ih r1 ms' r2 hN v hv
+  intro p hp
+  unfold mixerEntries at hp
+  obtain ⟨oi, hoi, hq⟩ := List.mem_filterMap.mp hp
+  cases ho : oi.1 with
+  | none => simp [ho] at hq
+  | some v =>
+    simp [ho] at hq
+    rw [← hq]
+    have : some v ∈ ms := by
+      obtain ⟨x, i⟩ := oi
+      have hz := List.mem_zipIdx hoi
+      simp only at ho
+      subst ho
+      rw [hz.2.2]
+      exact List.getElem_mem _
+    exact key n s ms r h v this
+
+/-- **`MixerSensorsStructure.decode` = `Sens.decMixers`** in one statement (the instance afterwards: `mixer_sensors_decode_eq`) -/
+theorem mixer_sensors_decode_model (c : String) (ks : List String) (vs : List V) (msg : List UInt8) (off : Nat) (data : V)
+    (hd : dataOk data) :
+    (PyCode.MixerSensorsStructure_decode (.obj c ks vs) (.bytes msg) (.int (off : Int)) data).map (·.1)
+      = match msg.drop off, decMixers (msg.drop off) with
+        | nb :: _, some (fs, _) => .ok (.tuple [mergeF data fs, .int ((off + 1 + 8 * nb.toNat : Nat) : Int)])
+        | nb :: r, none => .error (mixErr msg.length (off + 1 + 8 * decFail decMixer nb.toNat r))
+        | [], _ => .error .IndexError := by
+  rw [mixer_sensors_decode_eq c ks vs msg off data hd, decMixers_shape]
+  generalize msg.drop off = d
+  match d with
+  | [] => rfl
+  | nb :: r =>
+    cases hN : decN decMixer nb.toNat r with
+    | none => simp [hN, Except.map]
+    | some p =>
+      obtain ⟨ms, r3⟩ := p
+      have e1 := intDictV_fieldV (mixerEntries ms) (fun v => mixV (some v)) (mixV_recordV ms r nb.toNat r3 hN)
+      simp only [hN, Except.map, mergeF, List.map_cons, List.map_nil, mixP_model, e1, List.length_map]
+      simp [fieldV, recordV, scalarV, Val.nat]
 
 /-! ### non-vacuity -/
 
